@@ -38,12 +38,13 @@ Inductive effect :=
 | CopyTL (b : bool)                            (* write of the <pValueCopy> mirror of TLParamsLocked *)
 | BankRead (k : Z)                             (* device read of slot k of the register bank *)
 | BankPoke (k v : Z)                           (* environment: the device's bank slot k becomes v *)
-| LoadCtxt (tl start stop copy host stop0 : bool)
+| LoadCtxt (tl start stop copy host stop0 mask : bool)
                                                (* host: camera.ctxt = Some(description); which of the
                                                   three SFNC nodes it defines with the right interface,
                                                   whether TLParamsLocked has a <pValueCopy>, whether it is a
                                                   host-side variable, whether AcquisitionStop's
-                                                  CommandValue is 0 (else 1) *)
+                                                  CommandValue is 0 (else 1), whether TLParamsLocked is
+                                                  a <MaskedIntReg> (written by read-modify-write) *)
 | ClearCache.                                  (* host: cached register values dropped *)
 
 Definition effect_eqb (a b : effect) : bool :=
@@ -58,8 +59,9 @@ Definition effect_eqb (a b : effect) : bool :=
   | HostTL x, HostTL y => Bool.eqb x y
   | BankRead j, BankRead k => j =? k
   | BankPoke j v, BankPoke k w => (j =? k) && (v =? w)
-  | LoadCtxt a1 a2 a3 a4 a5 a6, LoadCtxt b1 b2 b3 b4 b5 b6 =>
+  | LoadCtxt a1 a2 a3 a4 a5 a6 a7, LoadCtxt b1 b2 b3 b4 b5 b6 b7 =>
       Bool.eqb a1 b1 && Bool.eqb a2 b2 && Bool.eqb a3 b3 && Bool.eqb a4 b4 && Bool.eqb a5 b5 && Bool.eqb a6 b6
+      && Bool.eqb a7 b7
   | _, _ => false
   end.
 
@@ -109,7 +111,7 @@ Definition dstep (d : dev) (e : effect) : dev :=
                  d_copy := d_copy d |}
   | CopyTL b => {| d_copen := d_copen d; d_sopen := d_sopen d; d_enabled := d_enabled d;
                   d_locked := d_locked d; d_acq := d_acq d; d_alive := d_alive d; d_copy := b |}
-  | GenApiFetch | GenApiRead | LoadCtxt _ _ _ _ _ _ | ClearCache | BankRead _ | BankPoke _ _ => d
+  | GenApiFetch | GenApiRead | LoadCtxt _ _ _ _ _ _ _ | ClearCache | BankRead _ | BankPoke _ _ => d
   end.
 
 Definition replay_from (d : dev) (t : list effect) : dev := fold_left dstep t d.
